@@ -66,7 +66,7 @@ def apply(mut):
 
 def restore(saved):
     if "__patch__" in saved:
-        sh("git checkout -- . && git clean -fdq tests", cwd=REPO)
+        sh("git checkout -- . && git clean -fdq tests seeded", cwd=REPO)
         return
     for p, s in saved.items():
         open(p, "w").write(s)
@@ -134,6 +134,13 @@ def main():
                 restore(saved); results.append(r); print(json.dumps(r), flush=True); continue
             if "demo" in mut and os.path.exists(mut["demo"]):
                 shutil.copy(mut["demo"], os.path.join(REPO, "tests", "demo.rs"))
+                fx = os.path.join(mut["dir"], "fixture")
+                if os.path.isdir(fx):
+                    # the demo looks for <crate>/seeded/<n>/fixture
+                    n = mut["id"].split("-")[-1]
+                    dst = os.path.join(REPO, "seeded", n, "fixture")
+                    shutil.rmtree(os.path.join(REPO, "seeded"), ignore_errors=True)
+                    shutil.copytree(fx, dst)
                 ok_with, msg_with = demo_run()
                 r["demo_with_change"] = ("PASSES (unexpected)" if ok_with else "fails") + ": " + msg_with[:120]
                 sh(f"git apply -R --whitespace=nowarn {mut['patch']}", cwd=REPO)
